@@ -13,7 +13,29 @@ PRE = ("From Coq Require Import List NArith.\nFrom Echo Require Import Base.Byte
        "Import ListNotations.\nOpen Scope N_scope.\n")
 
 
+EDGE_PAYLOADS = [[], [0], [0, 0], [0xff], [0xf0, 0x0f], [0x0f, 0xf0], [0xff] * 9, [0] * 8, [1], [1, 0], [0, 1],
+                 [0xff] * 8, [0x80] + [0] * 7, [0] * 7 + [0x80], [0xaa, 0x55, 0xaa], [0x55, 0xaa]]
+
+
+def gen_reducer_case(rng, tier):
+    """one Reduce channel, 3-6 emissions, payloads from a pool of edge cases (zeros that absorb AND, all-ones that absorb OR,
+    unequal lengths, values that wrap the u64 sum, equal prefixes for max/min)"""
+    op = rng.choice(POLICIES[2:])
+    chan = rng.choice([1, rng.getrandbits(256)])
+    n = rng.randint(3, 6 if tier == "quick" else 7)
+    ems, seen = [], set()
+    while len(ems) < n:
+        k = (chan, rng.choice([0, 1, 2, rng.getrandbits(256)]), rng.choice([0, 1, 2]), rng.choice([0, 1]))
+        if k in seen:
+            continue
+        seen.add(k)
+        ems.append((k, list(rng.choice(EDGE_PAYLOADS))))
+    return render_case([(chan, op)], ems, "all", rng.getrandbits(32))
+
+
 def gen_case(rng, tier, dup=False, big=False):
+    if not dup and not big and rng.random() < 0.35:
+        return gen_reducer_case(rng, tier)
     nch = rng.randint(1, 4)
     pool = [rng.getrandbits(256) for _ in range(2)] + [rng.randint(0, 3), (1 << 256) - 1, 1 << 255]
     chans = rng.sample(pool, nch)
